@@ -276,7 +276,9 @@ def run(pid, tier, seed, replay=None):
         elif pid == 'C03':
             cfgs = [{'la': la, 'one': 0, 'cost': 0, 'rec': 1} for la in ALL_LA]
         elif pid == 'C04':
-            cfgs = [{'la': la, 'one': o, 'cost': 1, 'rec': 1} for la in ALL_LA for o in (0, 1)] + [{'la': 1, 'one': 0, 'cost': 0, 'rec': 1}]
+            # recovery on / off alternates (for a sentence the flag must not matter; with it off a rejected earlier parse
+            # on the same object leaves make_parse early)
+            cfgs = [{'la': la, 'one': o, 'cost': 1, 'rec': (la + o) % 2} for la in ALL_LA for o in (0, 1)] + [{'la': 1, 'one': 0, 'cost': 0, 'rec': 1}]
         else:
             cfgs = [{'la': la, 'one': o, 'cost': c, 'rec': 1} for la in ALL_LA for o in (0, 1) for c in (0, 1)]
         res = ps.run_impl(lambda i: cfgs if (ps.rec[i] is True and ps.trans[i] is not None) else [],
